@@ -143,6 +143,12 @@ def build(rng, pattern, cell_cls, atol, n_copies=2, crossings=None, poses=None, 
         if G.perp_widths(c2).min() > need + 0.3 and abs(np.linalg.det(c2)) > 1:
             cell = c2
             int_cell = 1 + int(rng.integers(2))
+    narrow = False
+    if bystander_elements == ("Ar", "Kr", "Xe") and rng.integers(4) == 0:
+        # a structure of one-letter elements only (when the pattern has only such), with its per-type tables held as numpy
+        # arrays of narrow fixed-width strings - the state every product of extend/replace is in
+        bystander_elements = ("I", "K", "W")
+        narrow = True
     positions, elements, tags = [], [], []
     planted, measured, used_poses, decoy_groups = [], [], [], []
     crossings = list(crossings) if crossings is not None else [None] * n_copies
@@ -218,5 +224,9 @@ def build(rng, pattern, cell_cls, atol, n_copies=2, crossings=None, poses=None, 
     cell_given = cell if not int_cell else ([[int(v) for v in row] for row in cell] if int_cell == 1 else np.array(cell, dtype=int))
     atoms = Atoms(elements=[elements[i] for i in order], positions=positions[order], cell=cell_given,
                   charges=[1000.0 + i / 64.0 for i in range(n)], groups=[int(x) for x in rng.integers(0, 3, n)])
-    return {"atoms": atoms, "cell": cell, "planted": [[int(newidx[i]) for i in g] for g in planted], "crossings": measured, "poses": used_poses,
+    if narrow:
+        atoms.atom_type_elements = np.array([str(e) for e in atoms.atom_type_elements])
+        atoms.atom_type_labels = np.array([str(e) for e in atoms.atom_type_labels])
+        atoms.atom_type_masses = np.array(atoms.atom_type_masses, dtype=float)
+    return {"atoms": atoms, "narrow_tables": narrow, "cell": cell, "planted": [[int(newidx[i]) for i in g] for g in planted], "crossings": measured, "poses": used_poses,
             "decoy_groups": [(d, [int(newidx[i]) for i in g]) for d, g in decoy_groups], "tags": [tags[i] for i in order], "cell_cls": cell_cls, "int_cell": int_cell}
